@@ -1470,12 +1470,92 @@ func (fl *Flow) freshExpr(e ast.Expr, fs *FactSet, resIdx int) bool {
 			return true
 		}
 		if fl.resFresh != nil {
-			if r := fl.resFresh(x); resIdx < len(r) {
-				return r[resIdx]
+			if r := fl.resFresh(x); resIdx < len(r) && r[resIdx] {
+				return true
+			}
+		}
+		// a helper that hands back (an append to / a reslice of) one of its own slice parameters:
+		// as fresh as the argument
+		if cu := fl.m.calleeUnit(x); cu != nil && cu.Lit == nil && resIdx == 0 {
+			if pi := passThroughParam(fl.m, cu); pi >= 0 && pi < len(x.Args) {
+				return fl.freshExpr(x.Args[pi], fs, 0)
 			}
 		}
 	}
 	return false
+}
+
+// passThroughParam: the index of the slice parameter p such that every return of u returns p and
+// every assignment to p is `p = append(p, …)` or a reslice of p (-1 if there is none).
+func passThroughParam(m *Model, u *FuncUnit) int {
+	if m.ptMemo == nil {
+		m.ptMemo = map[*FuncUnit]int{}
+	}
+	if v, ok := m.ptMemo[u]; ok {
+		return v
+	}
+	m.ptMemo[u] = -1
+	info := m.Info
+	rets, all := returnExprs(u)
+	if !all {
+		return -1
+	}
+	var pv *types.Var
+	var pid *ast.Ident
+	for _, r := range rets {
+		id, ok := ast.Unparen(r).(*ast.Ident)
+		if !ok {
+			return -1
+		}
+		v, _ := info.ObjectOf(id).(*types.Var)
+		if v == nil || (pv != nil && v != pv) {
+			return -1
+		}
+		pv, pid = v, id
+	}
+	if pv == nil {
+		return -1
+	}
+	if _, isSlice := pv.Type().Underlying().(*types.Slice); !isSlice {
+		return -1
+	}
+	pi := m.paramIndex(u, pid)
+	if pi < 0 {
+		return -1
+	}
+	ok := true
+	ast.Inspect(u.Body, func(n ast.Node) bool {
+		as, isAs := n.(*ast.AssignStmt)
+		if !isAs || len(as.Lhs) != len(as.Rhs) {
+			return true
+		}
+		for i, l := range as.Lhs {
+			if identVar(info, l) != pv {
+				continue
+			}
+			r := ast.Unparen(as.Rhs[i])
+			for {
+				if se, isSE := r.(*ast.SliceExpr); isSE {
+					r = ast.Unparen(se.X)
+					continue
+				}
+				break
+			}
+			if call, isCall := r.(*ast.CallExpr); isCall && isBuiltinCall(info, call, "append") && len(call.Args) > 0 && identVar(info, call.Args[0]) == pv {
+				continue
+			}
+			if identVar(info, r) == pv {
+				continue
+			}
+			ok = false
+		}
+		return true
+	})
+	if !ok {
+		return -1
+	}
+	m.ptMemo[u] = pi
+	return pi
 }
 
 func fieldNamed(n *types.Named, name string) *types.Var {
